@@ -467,7 +467,7 @@ struct Flat {
 extra!(Flat, "struct_with_flatten", |ch, p, f| Flat {
     a: u8::gen(ch, &format!("{p}/a"), f),
     inner: FlatInner { x: String::gen(ch, &format!("{p}/inner.x"), f), y: 7 },
-    rest: [&[][..], &["z"][..], &["y", "z"][..]][ch.dev(0, &format!("{p}/rest"), 3)].iter().map(|k| (k.to_string(), String::gen(ch, &format!("{p}/rest.{k}"), f))).collect(),
+    rest: [&[][..], &["z"][..], &["p", "é q"][..]][ch.dev(0, &format!("{p}/rest"), 3)].iter().map(|k| (k.to_string(), String::gen(ch, &format!("{p}/rest.{k}"), f))).collect(),
 });
 
 #[derive(Serialize, Deserialize, Debug, PartialEq)]
